@@ -290,3 +290,35 @@ Theorem C12_example_float_runs :
   rpe_pd true FloatExamples.ex_ref FloatExamples.ex_est [(0, 1); (1, 2); (2, 3)]%nat = FloatExamples.ex_ratio_result.
 Proof. exact (conj FloatExamples.stats_example_F FloatExamples.rpe_ratio_example_F). Qed.
 Print Assumptions C12_example_float_runs.
+
+(* ---------- a Result handed out earlier is not touched by change_unit ---------- *)
+(* get_result keeps a REFERENCE to the metric's error array (heap model, any number system):
+   change_unit rebinds self.error to a new array, so every Result that exists keeps its values and
+   stays self-consistent, while the metric holds the converted values *)
+Theorem C12_change_unit_keeps_earlier_results :
+  forall (T : Type) (ops : NumOps T) (p : T) (h : @heap T) (m : hmetric) (v : Unit) (r : @hresult T),
+  (fst m < length h)%nat -> (res_addr r < length h)%nat -> result_consistent h r ->
+  let '(st, (h', m')) := change_unit_h false p h m v in
+  hread h' (res_addr r) = hread h (res_addr r) /\ result_consistent h' r /\
+  st = fst (change_unit p (hread h (fst m)) (snd m) v) /\
+  hread h' (fst m') = fst (snd (change_unit p (hread h (fst m)) (snd m) v)) /\
+  snd m' = snd (snd (change_unit p (hread h (fst m)) (snd m) v)) /\
+  result_consistent h' (get_result_h h' m').
+Proof. exact @change_unit_keeps_earlier_results. Qed.
+Print Assumptions C12_change_unit_keeps_earlier_results.
+
+Theorem C12_result_then_change_unit_then_result :
+  forall (T : Type) (ops : NumOps T) (p : T) (e : list T) (u v : Unit),
+  let '(st, s1, e1, u1, e2, u2, s2) := alias_scenario false p e u v in
+  s1 = all_statistics e /\ e1 = e /\ u1 = u /\
+  (st, (e2, u2)) = change_unit p e u v /\ s2 = all_statistics e2.
+Proof. exact @alias_scenario_spec. Qed.
+Print Assumptions C12_result_then_change_unit_then_result.
+
+(* regression witness (binary64 run): the earlier in-place scaling rescaled the array of a Result
+   taken before m -> mm (stored sse 5, array sse 5000000); the current code does not *)
+Theorem C12_in_place_scaling_rescaled_earlier_result :
+  AliasWitness.stored_and_actual_sse true = (AliasWitness.five, AliasWitness.five_million) /\
+  AliasWitness.stored_and_actual_sse false = (AliasWitness.five, AliasWitness.five).
+Proof. exact (conj AliasWitness.old_code_rescaled_earlier_result AliasWitness.new_code_keeps_earlier_result). Qed.
+Print Assumptions C12_in_place_scaling_rescaled_earlier_result.
